@@ -28,6 +28,9 @@ def run(args, input=None, cwd=None):
             runner = CliRunner()
         r = runner.invoke(cli, list(args), input=input, catch_exceptions=True)
         exc = None
+        if type(r.exception).__name__ == "_Timeout":
+            # the runner's per-case alarm fired inside the CLI: a harness timeout, not a CLI exception
+            raise r.exception
         if r.exception is not None and not isinstance(r.exception, SystemExit):
             import traceback
 
